@@ -152,10 +152,8 @@ def limiterStep (st : LimiterSt) (toks : List String) : LimiterSt × String :=
   | ["lfs", now] =>
     let st := { st with pb := st.pb.sweep (nat! now) }
     (st, snapshot st)
-  | ["lrx", ip, port] =>
-    ({ st with expected := (nat! ip, nat! port) :: st.expected.filter (· != (nat! ip, nat! port)) }, "ok")
-  | ["lry", ip, port] =>
-    ({ st with expected := st.expected.filter (· != (nat! ip, nat! port)) }, "ok")
+  | ["lrx", ip, port] => ({ st with expected := Filter.expectAddr st.expected (nat! ip) (nat! port) }, "ok")
+  | ["lry", ip, port] => ({ st with expected := Filter.releaseAddr st.expected (nat! ip) (nat! port) }, "ok")
   | ["lrin", now, ip, port, kind, node] =>
     match st.filt with
     | none => (st, "bad-op")
@@ -170,8 +168,9 @@ def limiterStep (st : LimiterSt) (toks : List String) : LimiterSt × String :=
       match d with
       | none => (st, "bad-op")
       | some d =>
-        let permitted := st.expected.contains (ip, nat! port)
-        let (f1, pb1, o) := handleInbound f st.pb (nat! now) permitted ip d
+        let r : Filter.Recv := { filter := f, pb := st.pb, expected := st.expected }
+        let (r1, o) := r.inbound (nat! now) ip (nat! port) d
+        let (f1, pb1) := (r1.filter, r1.pb)
         let st := { st with filt := some f1, pb := pb1, ips := insSorted ip st.ips,
                             nodes := if kind == "m" then insSorted node st.nodes else st.nodes }
         let o := match o with | .dropped => "dropped" | .unrecognized => "unrec" | .inbound => "inbound"
